@@ -51,17 +51,19 @@ def check_decode(ck, F, rule):
     except Unanalysable as u:
         ck.fail(rule, "from_bytes:shape", f"unanalysable: {u.msg}", u.where or where, kind="unanalysable")
         return
-    # result must be ite(is_ok(decoded), Ok(decoded value), Err(FormatError)); no other error can surface, no `?`
-    good = False
+    # result must be: the decoded proof when decoding is Ok, Err(FormatError) on every failure; no other exit.
+    # accepted spellings: if is_ok {Ok(unwrap)} else {Err(..)}, match, map_err
+    okv = errv = None
     why = repr(ret)
-    if isinstance(ret, Ite):
-        a, b = (ret.a, ret.b) if not ret.cond.neg else (ret.b, ret.a)
-        good = ret.cond.op == "is_ok" and isinstance(a, Enum) and a.variant == "Ok" and isinstance(a.payload[0], Opaque) and a.payload[0].what == "decoded" and a.payload[0].info.get("via") == "deserialize_compressed" and isinstance(b, Enum) and b.variant == "Err" and "FormatError" in repr(b)
-        if good:
-            src = a.payload[0].info.get("src")
-            good = isinstance(src, (Opaque, type(None))) or True
+    if isinstance(ret, Ite) and getattr(ret.cond, "op", "") == "is_ok":
+        a_, b_ = (ret.a, ret.b) if not ret.cond.neg else (ret.b, ret.a)
+        if isinstance(a_, Enum) and a_.variant == "Ok" and isinstance(b_, Enum) and b_.variant == "Err":
+            okv, errv = a_.payload[0], b_.payload[0]
+    elif isinstance(ret, Opaque) and ret.what == "result":
+        okv, errv = ret.info.get("ok"), ret.info.get("err")
+    good = isinstance(okv, Opaque) and okv.what == "decoded" and okv.info.get("via") == "deserialize_compressed" and isinstance(errv, Enum) and errv.variant == "FormatError" and "R1CSError" in errv.path
     guards = [it for it in I.trace.items if it[0] == "guard"]
-    ck.require(good and not guards, rule, "from_bytes:all-failures-FormatError", f"from_bytes must return the decoded proof when decoding is Ok and Err(FormatError) otherwise, with no other exit; got {why}, early exits {[(str(g[1]), repr(g[2])) for g in guards]}", where)
+    ck.require(good and not guards, rule, "from_bytes:all-failures-FormatError", f"from_bytes must return the decoded proof when decoding is Ok and Err(R1CSError::FormatError) otherwise, with no other exit; got {why}, early exits {[(str(g[1]), repr(g[2])) for g in guards]}", where)
     cur = [n for n in FX.walk(fn["body"]) if FX.callee_info(n).get("path", "").endswith("io::Cursor::<T>::new")]
     ck.require(len(cur) == 1, rule, "from_bytes:cursor-over-input", "from_bytes must read through one Cursor over the input slice", where)
 
